@@ -202,11 +202,22 @@ TSyncEnd ==
           /\ ev.hostile \in {"undecodable", "toolarge"} => ev.dropped    \* rpc.Serve ended: the peer is dropped
   /\ Consume /\ UNCHANGED <<vars, mode>>
 
+\* Finality / quality variants (4 validators, epochs of 3, PoA or PoS): the fork choice is bft.Select (quality, score, id) and
+\* bft.Accepts refuses what conflicts with the finalized checkpoint - none of it is modelled here.  The oracle is a reference
+\* node with the same local chain that is handed the peer's blocks through the real node import until the first refusal.
+TQEnd ==
+  /\ IsEvent("QEnd")
+  /\ ev.timeout \/
+       CASE ev.via = "download" -> ev.bestIsRef /\ ev.storeOK /\ ev.imported = ev.refImported
+         [] ev.via = "sync" /\ ev.higherScore -> ev.bestIsRef /\ ev.storeOK
+         [] OTHER -> TRUE       \* a peer announcing a lower total score is not selected by Communicator.Sync (design limit)
+  /\ Consume /\ UNCHANGED <<vars, mode>>
+
 TNote == IsEvent("Note") /\ Consume /\ UNCHANGED <<vars, mode>>
 
 Init == IdleA /\ IdleB /\ IdleC /\ scen = NoScen /\ live = {} /\ l = 1 /\ mode = "free" /\ HWMInit
 Next == TAStart \/ TLStart \/ TProbe \/ TLLost \/ TLResult \/ TASilent \/ TAResult \/ TBStart \/ TBStartL \/ TSStart \/ TFetch \/ TBSilent \/ TBExit \/ TBEnd \/ TConn \/ TMsg
-        \/ TSyncEnd \/ TNote
+        \/ TSyncEnd \/ TQEnd \/ TNote
 Spec == Init /\ [][Next]_tvars
 
 Progress == HWM(l)
